@@ -308,3 +308,57 @@ Definition fc_push (c : fcache) : fcache * list ftag :=
 
 (* the FLV cache seen through the packet abstraction of the LTS *)
 Definition ftag_pkt (t : ftag) : pkt := {| p_id := t_id t; p_kind := t_kind t |}.
+
+(* ---- what the correspondence check runs and the oracle it applies ---- *)
+
+Fixpoint zlist_eqb (a b : list Z) : bool :=
+  match a, b with
+  | [], [] => true
+  | x :: a', y :: b' => (x =? y) && zlist_eqb a' b'
+  | _, _ => false
+  end.
+
+Definition cres_code (r : cres) : Z := match r with CK k => k | CPanic => -1 | CFuel => -2 end.
+
+(* RTP caches: packets = (channel, payload) *)
+Definition cc_kinds (c : codec) (pkts : list (Z * list Z)) : list Z :=
+  map (fun p => cres_code (classify c (fst p) (snd p))) pkts.
+
+(* the packets whose CachePack completed: id = index, kind as classified (a packet whose
+   classification panicked never reaches the cache state) *)
+Fixpoint number_from (i : Z) (kinds : list Z) : list pkt :=
+  match kinds with
+  | [] => []
+  | k :: ks => (if k <? 0 then [] else [ {| p_id := i; p_kind := k |} ]) ++ number_from (i + 1) ks
+  end.
+
+(* model prediction: kinds, and the ids PushTo delivers *)
+Definition cc_pushed (gopon : bool) (kinds : list Z) : list Z :=
+  map p_id (rc_snap (fold_left rc_add (number_from 0 kinds) (rc_empty gopon))).
+
+(* oracle: the observed kinds are the classifier's and what PushTo delivered is the
+   SPECIFICATION [spec_snap] of the observed kind sequence *)
+Definition cc_ok (c : codec) (gopon : bool) (pkts : list (Z * list Z)) (okinds opushed : list Z) : bool :=
+  zlist_eqb okinds (cc_kinds c pkts) &&
+  zlist_eqb opushed (map p_id (spec_snap gopon (number_from 0 okinds))).
+
+(* FLV cache: tags = (tagtype, timestamp, data) *)
+Definition flv_kinds (tags : list (Z * Z * list Z)) : list Z :=
+  map (fun t => flv_classify (fst (fst t)) (snd t)) tags.
+Definition flv_tss (tags : list (Z * Z * list Z)) : list Z := map (fun t => snd (fst t)) tags.
+
+Fixpoint ftags_from (i : Z) (kinds tss : list Z) : list ftag :=
+  match kinds, tss with
+  | k :: kinds', ts :: tss' => {| t_id := i; t_kind := k; t_ts := ts |} :: ftags_from (i + 1) kinds' tss'
+  | _, _ => []
+  end.
+
+Definition flv_pushed (gopon : bool) (kinds tss : list Z) : list ftag :=
+  snd (fc_push (fold_left fc_add (ftags_from 0 kinds tss) (fc_empty gopon))).
+
+Definition flv_ok (gopon : bool) (tags : list (Z * Z * list Z))
+           (okinds : list Z) (opushed : list (Z * Z)) (oorigs : list Z) : bool :=
+  zlist_eqb okinds (flv_kinds tags) &&
+  zlist_eqb oorigs (flv_tss tags) &&
+  zlist_eqb (map fst opushed) (map p_id (spec_snap gopon (map ftag_pkt (ftags_from 0 okinds oorigs)))) &&
+  zlist_eqb (map snd opushed) (map t_ts (flv_pushed gopon okinds oorigs)).
